@@ -10,10 +10,10 @@ import writemodel as wm
 
 PROP = "C12"
 MODEL_TARGETS = ["Corr/WriteShow.vo"]
-THEOREMS = ["C12_table_checks", "C12_order_tables_agree", "C12_order_case_insensitive", "C12_upper_facts", "C12_order_symmetric", "C12_reader_order_is_build_item", "C12_write_factors", "C12_header_independent_of_data_options", "C12_header_text_independent", "C12_state_independent_of_presentation", "C12_written_lines", "C12_version_swap_meaning", "C12_swap_on_disk"]
+THEOREMS = ["C12_table_checks", "C12_order_tables_agree", "C12_order_case_insensitive", "C12_upper_facts", "C12_order_symmetric", "C12_reader_order_is_build_item", "C12_write_factors", "C12_header_independent_of_data_options", "C12_header_text_independent", "C12_state_independent_of_presentation", "C12_written_lines", "C12_version_swap_meaning", "C12_swap_on_disk", "C12_same_content_options_unfold", "C12_same_formats_unfold", "C12_wrap_rel_unfold", "C12_read_wrap_rel_unfold", "C12_same_but_version_unfold", "C12_file_presentation_independent", "C12_file_wrap_independent", "C12_file_options_independent", "C12_written_state_but_version"]
 ASSUMPTIONS = [
     "two numeric formats of equal precision print the same digits (oracle); only formats of equal precision are paired",
-    "the reader side of the equality (parse of the written lines) rests on C04/C03 and the correspondence",
+    "the reader side of the equality is proved for the whole file on the domain file_hypsb of the file round trip (C12_file_*); outside that domain it rests on the correspondence",
 ]
 
 # pairs share the numeric format (equal precision); everything else varies
